@@ -201,7 +201,7 @@ example (s : List Nat) (hs : s = [100] ∨ s = [100, 101] ∨ s = [100, 101, 102
     exact ⟨_, hm.2.1⟩
   have key := fun s v hq hfin hle hpre =>
     C03_prefix_found_tokenized_src exSorter exSorter_ok toyU Gen.lang_en toyStem toyU_facts tablesOK_en
-      (fun _ => toyStem_bounded _) exOps hops (by decide +kernel) 0
+      (toyStemHyp _ (by decide)) exOps hops (by decide +kernel) 0
       { ix := 0, id := 42, title := tokenizeRecord Gen.srcProg exEnv [65, 98, 99, 32, 100, 101, 102], rating := 7 }
       (by decide +kernel) s v hq hfin
       { offset := 1, lo := 4, hi := 7, stem := 2, pos := none, fin := true } (by decide +kernel) hle hpre
